@@ -135,6 +135,21 @@ def check(an, rep, tier):
                     'ok' if ok else ('violation' if rv.k == 'arr' and
                                      rv.dims is not None else 'unknown'),
                     '' if ok else 'returned %r' % (rv,))
+    from ..poly import Poly, same
+    for r in runs:
+        if r.qualname == 'grid.grid_flat' and r.variant.get('n') == 'shape':
+            rv = r.result
+            want = [Poly.sym('n.%d' % k) for k in range(r.d)]
+            lay = rv.lay[0] if rv.k == 'arr' and rv.lay is not None else None
+            ok = lay is not None and len(lay) == r.d and all(
+                same(x, y) for x, y in zip(lay, want))
+            bad = lay is not None and not ok
+            rep.add('S-layout', 'grid.grid_flat', 'rows enumerate the '
+                    'multi-indices with the first index fastest (d=%d)' % r.d,
+                    'ok' if ok else ('violation' if bad else 'unknown'),
+                    '' if ok else 'the flat grid enumerates the composite '
+                    'index in the order %s (fastest first), expected %s'
+                    % (lay, want))
     # --- P-domain by abstract execution of the rejections
     d = 3
     cases = [
@@ -177,6 +192,7 @@ def check(an, rep, tier):
     rep.add('P-domain', 'grid.grid_prep_opts', 'rejects a of length 3 with b '
             'of length 2', 'ok' if raised else 'violation',
             '' if raised else 'inconsistent option lengths are not rejected')
+    rep.floor('S-layout', 2, 'flat grid order')
     rep.floor('F-inverse', 2, 'round trips')
     rep.floor('F-endpoint', 4, 'endpoints')
     rep.floor('P-two-sided', 5, 'clamps')
